@@ -1,7 +1,119 @@
-(* Props/C09.v -- temporary stub while the proofs are being built *)
-From Coq Require Import ZArith List String.
-From V Require Import Base.UString Model.PatternEq.
+(* Props/C09.v -- pattern equivalence is a total, sound equivalence relation
+   (DESIGN.md 6/C09, Appendix A.5).  Model: Model/PatternEq.v; specification:
+   Spec/PatternSemantics.v; proofs: Proofs/PatternEq*.v.                   *)
+From Coq Require Import NArith ZArith List Bool String.
+From V Require Import Base.UString Model.PatternEq Spec.PatternSemantics
+     Proofs.PatternEqCmp Proofs.PatternEqLists Proofs.PatternEqC Proofs.PatternEqDnf Proofs.PatternEqNorm
+     Proofs.PatternEqTop.
+Import ListNotations.
 
-Theorem settle_no_fuel : forall (A : Type) (f : A -> res (A * bool)) (a : A), settle 0 f a = Err EFuel.
-Proof. reflexivity. Qed.
-Print Assumptions settle_no_fuel.
+(* ---- the comparators are lawful (reflexive, antisymmetric, transitive as a total preorder) ---- *)
+
+Theorem constant_cmp_lawful : lawful const_cmp.
+Proof. exact const_cmp_lawful. Qed.
+Print Assumptions constant_cmp_lawful.
+
+Theorem comparison_expression_cmp_lawful : lawful ccmp.
+Proof. exact ccmp_lawful. Qed.
+Print Assumptions comparison_expression_cmp_lawful.
+
+Theorem observation_expression_cmp_lawful : lawful ocmp.
+Proof. exact ocmp_lawful. Qed.
+Print Assumptions observation_expression_cmp_lawful.
+
+(* ---- hence the reported relation is an equivalence relation on the patterns that normalise ---- *)
+
+Theorem equiv_refl : forall v fuel p n, onormalize v fuel p = Ok n -> equiv v fuel p p = Ok true.
+Proof. exact PatternEqTop.equiv_refl. Qed.
+Print Assumptions equiv_refl.
+
+Theorem equiv_sym : forall v fuel p q b, equiv v fuel p q = Ok b -> equiv v fuel q p = Ok b.
+Proof. exact PatternEqTop.equiv_sym. Qed.
+Print Assumptions equiv_sym.
+
+Theorem equiv_trans : forall v fuel p q r,
+    equiv v fuel p q = Ok true -> equiv v fuel q r = Ok true -> equiv v fuel p r = Ok true.
+Proof. exact PatternEqTop.equiv_trans. Qed.
+Print Assumptions equiv_trans.
+
+Theorem equiv_trans_false : forall v fuel p q r,
+    equiv v fuel p q = Ok true -> equiv v fuel q r = Ok false -> equiv v fuel p r = Ok false.
+Proof. exact PatternEqTop.equiv_trans_false. Qed.
+Print Assumptions equiv_trans_false.
+
+(* totality relative to normalisation (and to fuel: see equiv_never_raises below) *)
+Theorem equiv_total : forall v fuel p q,
+    (exists b, equiv v fuel p q = Ok b) <-> (exists n1 n2, onormalize v fuel p = Ok n1 /\ onormalize v fuel q = Ok n2).
+Proof. exact PatternEqTop.equiv_total. Qed.
+Print Assumptions equiv_total.
+
+(* ---- searching a collection returns exactly the members pairwise equivalent to the query ---- *)
+
+Theorem find_is_filter : forall v fuel p ps l,
+    find_equiv v fuel p ps = Ok l ->
+    l = map fst (filter (fun iq => reported v fuel p (snd iq)) (combine (seq 0 (List.length ps)) ps)).
+Proof. exact PatternEqTop.find_is_filter. Qed.
+Print Assumptions find_is_filter.
+
+Theorem find_total : forall v fuel p ps n,
+    onormalize v fuel p = Ok n -> Forall (fun q => exists nq, onormalize v fuel q = Ok nq) ps ->
+    exists l, find_equiv v fuel p ps = Ok l.
+Proof. exact PatternEqTop.find_total. Qed.
+Print Assumptions find_total.
+
+(* ---- soundness, comparison expressions: for EVERY interpretation H of the atoms that sees a
+        constant through its value, comparator-equal expressions mean the same and every pass of
+        the normaliser preserves the meaning ---- *)
+
+Theorem cmp_eq_sound : forall obj otype H, respects_denotation obj H ->
+    forall a b, ccmp a b = Eq -> forall x, csem obj otype H a x = csem obj otype H b x.
+Proof. exact ccmp_sem. Qed.
+Print Assumptions cmp_eq_sound.
+
+Theorem flatten_sound : forall obj otype H e x, csem obj otype H (fst (cflatten e)) x = csem obj otype H e x.
+Proof. exact cflatten_sound. Qed.
+Print Assumptions flatten_sound.
+
+Theorem order_dedupe_sound : forall obj otype H, respects_denotation obj H ->
+    forall e x, csem obj otype H (fst (corder e)) x = csem obj otype H e x.
+Proof. exact corder_sound. Qed.
+Print Assumptions order_dedupe_sound.
+
+Theorem absorb_sound : forall obj otype H, respects_denotation obj H ->
+    forall e x, csem obj otype H (fst (cabsorb e)) x = csem obj otype H e x.
+Proof. exact cabsorb_sound. Qed.
+Print Assumptions absorb_sound.
+
+(* DNF with the no-common-root-type pruning, on what the settle loop hands to it
+   (no OR directly under an OR) and on validated nodes (what its recursive calls see) *)
+Theorem dnf_sound : forall obj otype H fuel e e' ch,
+    flatb e = true -> cdnf fuel e = Ok (e', ch) -> forall x, csem obj otype H e' x = csem obj otype H e x.
+Proof. intros obj otype H fuel e e' ch F E. exact (proj1 (cdnf_flat obj otype H fuel e e' ch F E)). Qed.
+Print Assumptions dnf_sound.
+
+Theorem dnf_sound_validated : forall obj otype H fuel e e' ch,
+    cleanb e = true -> cdnf fuel e = Ok (e', ch) -> forall x, csem obj otype H e' x = csem obj otype H e x.
+Proof. intros obj otype H fuel e e' ch C E. exact (proj2 (cdnf_clean obj otype H fuel e e' ch C E)). Qed.
+Print Assumptions dnf_sound_validated.
+
+Theorem settle_establishes_flat : forall fuel e e' ch, csettle fuel e = Ok (e', ch) -> flatb e' = true.
+Proof. exact flat_csettle. Qed.
+Print Assumptions settle_establishes_flat.
+
+(* special values: registry-key strings up to case (not the regular expression of MATCHES), hex text
+   up to the case of its digits; address strings under respects_cidr (see Spec) *)
+Theorem special_sound : forall obj otype H, respects_cidr obj H ->
+    forall v a a' x, safe_atom v a = true -> special_atom v a = Ok a' -> asem obj otype H a' x = asem obj otype H a x.
+Proof. exact special_atom_sound. Qed.
+Print Assumptions special_sound.
+
+Theorem repaired_variant_is_safe : forall p, safe_o repaired p = true.
+Proof. exact safe_o_repaired. Qed.
+Print Assumptions repaired_variant_is_safe.
+
+(* the whole comparison-level normaliser *)
+Theorem comparison_normalize_sound : forall obj otype H, respects_denotation obj H -> respects_cidr obj H ->
+    forall v fuel e0 e ch, safe_c v e0 = true -> cnormalize v fuel e0 = Ok (e, ch) ->
+                           forall x, csem obj otype H e x = csem0 obj otype H e0 x.
+Proof. exact cnormalize_sound. Qed.
+Print Assumptions comparison_normalize_sound.
